@@ -197,7 +197,10 @@ func c18Cases(ar *gen18.Arity) []c18case {
 			ref: func(g *g18) string { return fmt.Sprint(g.w.Batch().RemoveEntities(ecs.All(g.ids...))) }},
 		{name: "RemoveEntities(true)", seed: 1,
 			gen: func(g *g18, m gen18.Map) string { return fmt.Sprint(m.RemoveEntities(true)) },
-			ref: func(g *g18) string { f := ecs.All(g.ids...).Exclusive(); return fmt.Sprint(g.w.Batch().RemoveEntities(&f)) }},
+			ref: func(g *g18) string {
+				f := ecs.All(g.ids...).Exclusive()
+				return fmt.Sprint(g.w.Batch().RemoveEntities(&f))
+			}},
 		{name: "Get", seed: 1,
 			gen: func(g *g18, m gen18.Map) string {
 				out := ""
@@ -795,7 +798,9 @@ func c18Misc() string {
 		}, func(g *g18) string { return fmt.Sprint(g.w.NewEntity(g.all[1], g.gx)) }},
 		{"Exchange.NewEntity(target)", func(g *g18) string {
 			return fmt.Sprint(generic.NewExchange(&g.w).Adds(tGR, tG1).WithRelation(tGR).NewEntity(g.ents[0]))
-		}, func(g *g18) string { return fmt.Sprint(ecs.NewBuilder(&g.w, g.gr, g.all[1]).WithRelation(g.gr).New(g.ents[0])) }},
+		}, func(g *g18) string {
+			return fmt.Sprint(ecs.NewBuilder(&g.w, g.gr, g.all[1]).WithRelation(g.gr).New(g.ents[0]))
+		}},
 		{"Exchange.Add", func(g *g18) string { generic.NewExchange(&g.w).Adds(tG1).Add(g.ents[1]); return "" },
 			func(g *g18) string { g.w.Add(g.ents[1], g.all[1]); return "" }},
 		{"Exchange.Add(target)", func(g *g18) string {
@@ -854,13 +859,18 @@ func c18Misc() string {
 	exCases := []exCase{
 		{"NewEntity(target)", []generic.Comp{tGR, tG1}, nil, tGR,
 			func(g *g18, ex *generic.Exchange) string { return fmt.Sprint(ex.NewEntity(g.ents[0])) },
-			func(g *g18) string { return fmt.Sprint(ecs.NewBuilder(&g.w, g.gr, g.all[1]).WithRelation(g.gr).New(g.ents[0])) }},
+			func(g *g18) string {
+				return fmt.Sprint(ecs.NewBuilder(&g.w, g.gr, g.all[1]).WithRelation(g.gr).New(g.ents[0]))
+			}},
 		{"NewEntity()", []generic.Comp{tGR, tG1}, nil, tGR,
 			func(g *g18, ex *generic.Exchange) string { return fmt.Sprint(ex.NewEntity()) },
 			func(g *g18) string { return fmt.Sprint(g.w.NewEntity(g.gr, g.all[1])) }},
 		{"Add(target)", []generic.Comp{tGR, tG1}, nil, tGR,
 			func(g *g18, ex *generic.Exchange) string { ex.Add(g.ents[1], g.ents[0]); return "" },
-			func(g *g18) string { g.w.Relations().Exchange(g.ents[1], []ecs.ID{g.gr, g.all[1]}, nil, g.gr, g.ents[0]); return "" }},
+			func(g *g18) string {
+				g.w.Relations().Exchange(g.ents[1], []ecs.ID{g.gr, g.all[1]}, nil, g.gr, g.ents[0])
+				return ""
+			}},
 		{"Remove()", nil, []generic.Comp{tGX}, nil,
 			func(g *g18, ex *generic.Exchange) string { ex.Remove(g.ents[4]); return "" },
 			func(g *g18) string { g.w.Remove(g.ents[4], g.gx); return "" }},
